@@ -310,24 +310,11 @@ def _bind_args(fields, call_ir):
 def _r5(ctx, m):
     pkg = package(ctx.tree)
     fl = m.flow
-    # --- roles of the CSR accumulators, from what is appended to them
-    roles = {}
-    counter = None
-    for f in fl.facts:
-        if f.kind == "augassign" and f.op == "Add" and f.value == ("const", 1) and len(f.loops) == 2:
-            counter = f.target
-    for f in fl.facts:
-        if f.kind == "append":
-            v = simp(f.value)
-            if v[0] == "carried" and v[1] == counter:
-                roles.setdefault("rows", set()).add(f.target)
-            elif v[0] == "elem" and v[1][0] == "call" and v[1][1] == ("global", "range") and len(f.loops) == 2 and v[2] == f.loops[1].id:
-                roles.setdefault("cols", set()).add(f.target)
-            elif len(f.loops) == 2:
-                lw = lower(v)
-                hv = list(lw.holes.values())
-                if len(hv) == 1 and (hv[0][0] == "sub" or (hv[0][0] == "fmt" and hv[0][1][0] == "sub")) and lw.text.strip() in lw.holes:
-                    roles.setdefault("vals", set()).add(f.target)
+    # --- roles of the CSR accumulators, from what is appended to them (the recogniser of C03.R1)
+    from .c03 import csr_roles, _len_of_acc, _evaluated_after
+    counter, croles, measured = csr_roles(m)
+    roles = {k: {f.target for f in v} for k, v in croles.items()}
+    scan_end = max([f.seq for v in croles.values() for f in v if f.loops] or [0])
     jcall = None
     ocall = None
 
@@ -341,20 +328,25 @@ def _r5(ctx, m):
     for name, lst in fl.assigns.items():
         for v, loops, guards, line, seq in lst:
             if ctor(v, "Jacobian"):
-                jcall = (ctor(v, "Jacobian"), line)
+                jcall = (ctor(v, "Jacobian"), line, seq)
     for f in fl.facts:
         if f.kind == "return" and ctor(f.value, "ODEContent"):
             ocall = (ctor(f.value, "ODEContent"), f.line)
             for a in list(ocall[0][2]) + [x for _, x in ocall[0][3]]:
                 if ctor(a, "Jacobian"):
-                    jcall = (ctor(a, "Jacobian"), f.line)
+                    jcall = (ctor(a, "Jacobian"), f.line, f.seq)
     if jcall is None:
         ctx.missing("R5", "Jacobian(...)", (FILE, m.func.lineno), "construction of TemplateLoader.Jacobian not found")
     else:
         args = _bind_args(dataclass_fields(pkg, "TemplateLoader.Jacobian"), jcall[0])
         want = {
             "nrow": (lambda a: m.is_n_eqns(a), "n_eqns"),
-            "nnz": (lambda a: a[0] == "carried" and a[1] == counter, f"the non-zero counter `{counter}`"),
+            # the number of stored entries: the counter incremented next to the appends, or the length of the value / column
+            # list taken after the scan
+            "nnz": ((lambda a: a[0] == "carried" and a[1] == counter) if counter is not None else
+                    (lambda a: _len_of_acc(a) is not None and _len_of_acc(a) == measured and {measured} in (roles.get("vals"), roles.get("cols"))
+                     and _evaluated_after(fl, a, jcall[2], scan_end)),
+                    f"the non-zero counter `{counter}`" if counter is not None else f"len({measured}) after the scan"),
             "rows": (lambda a: a[0] == "acc" and {a[1]} == roles.get("rows"), f"the row-pointer list {sorted(roles.get('rows', []))}"),
             "cols": (lambda a: a[0] == "acc" and {a[1]} == roles.get("cols"), f"the column-index list {sorted(roles.get('cols', []))}"),
             "vals": (lambda a: a[0] == "acc" and {a[1]} == roles.get("vals"), f"the value list {sorted(roles.get('vals', []))}"),
@@ -431,6 +423,8 @@ def _r5(ctx, m):
 
 T = FILE
 MUTANTS = [
+    {"name": 'nnz-length-taken-before-scan', "file": T, "old": '        nnz = 0\n\n        for row in range(n_eqns):\n            spjacrptr.append(nnz)\n            for col in range(n_eqns):\n                elem = jacrhs[row * n_eqns + col]\n                if elem != "0.0":\n                    spjaccval.append(col)\n                    spjacdata.append(f"{elem}")\n                    nnz += 1\n        spjacrptr.append(nnz)\n',
+     "new": '        nnz = len(spjacdata)\n        for row in range(n_eqns):\n            spjacrptr.append(len(spjacdata))\n            for col, elem in enumerate(jacrhs[row * n_eqns : (row + 1) * n_eqns]):\n                if elem == "0.0":\n                    continue\n                spjaccval.append(col)\n                spjacdata.append(elem)\n        spjacrptr.append(len(spjacdata))\n', "rules": ['R5']},
     {"name": "sparse-matrix-declared-csc", "file": "naunet/templates/cvode/src/naunet.cpp.j2", "old": "SUNSparseMatrix(NEQUATIONS, NEQUATIONS, NNZ, CSR_MAT, cv_sunctx_)", "new": "SUNSparseMatrix(NEQUATIONS, NEQUATIONS, NNZ, CSC_MAT, cv_sunctx_)", "count": 2, "rules": ["R9"]},
     {"name": "macros-gas-first", "file": "naunet/templates/base/cpp/include/naunet_macros.h.j2", "old": "{% for spec in network.species %}\n#define IDX_{{ spec.alias }} {{ loop.index0 }}", "new": "{% for spec in network.species | sort(attribute='is_surface') %}\n#define IDX_{{ spec.alias }} {{ loop.index0 }}", "rules": ["R8"]},
     {"name": "cusparse-kernel-drops-system-offset", "file": "naunet/templates/cvode/src/naunet_jac.cpp.j2", "old": "data[jistart + ", "new": "data[", "rules": ["R7"]},
@@ -457,6 +451,8 @@ MUTANTS = [
     {"name": "skip-catalyst-jac", "file": T, "old": "            for specidx in pspecidx:\n                for ri in rspecidx:\n                    rsymcopy = rsym.copy()", "new": "            for specidx in pspecidx:\n                if specidx in rspecidx:\n                    continue\n                for ri in rspecidx:\n                    rsymcopy = rsym.copy()", "rules": ["R1"]},
 ]
 BENIGN = [
+    {"name": "csr-rowslice-enumerate-count-by-len", "file": T, "old": '        nnz = 0\n\n        for row in range(n_eqns):\n            spjacrptr.append(nnz)\n            for col in range(n_eqns):\n                elem = jacrhs[row * n_eqns + col]\n                if elem != "0.0":\n                    spjaccval.append(col)\n                    spjacdata.append(f"{elem}")\n                    nnz += 1\n        spjacrptr.append(nnz)\n',
+     "new": '        for row in range(n_eqns):\n            spjacrptr.append(len(spjacdata))\n            for col, elem in enumerate(jacrhs[row * n_eqns + 0 : (row + 1) * n_eqns]):\n                if elem == "0.0":\n                    continue\n                spjaccval.append(col)\n                spjacdata.append(elem)\n        nnz = len(spjacdata)\n        spjacrptr.append(nnz)\n'},
     {"name": "arrays-renamed", "edits": [
         {"file": T, "old": "jacrhs", "new": "jacent", "count": 13},
         {"file": T, "old": "rhs[", "new": "derivs[", "count": 9},
